@@ -383,3 +383,13 @@ package js
 //@ func Parser.parseVarDecl
 //@   ensures[F,depth] @levels: jpLevels(p)
 //@   loop * invariant[F,depth] jpLevels(p)
+
+// Property.JSON: a property without a name (a method definition) or with a spread/initialiser is not JSON; everything it
+// dereferences afterwards must be covered by that test. The writer and the property's value are assumed present (the parser
+// sets Value for every property it builds).
+//@ func Property.JSON
+//@   requires[S] w != nil && n.Value != nil
+//@ func LiteralExpr.JSON
+//@   requires[S] w != nil
+//@ func ArrayExpr.JSON
+//@   requires[S] w != nil
